@@ -13,7 +13,8 @@ CALL = [dict(rule="R6", kind="re", pat=r"self\.persist\(\)", repl="self.persist(
 
 UNIT = dict(
     name="index_ops",
-    props=["C09", "C10", "C11"],
+    props=["C09", "C10", "C11", "C06"],
+    implicit_props=["C09", "C10", "C11"],  # the properties every obligation of the unit counts for; the others only through labelled clauses
     features=["allocator_api"],
     uses=["std::collections::HashMap", "vstd::std_specs::hash::*"],
     prelude=["core_types.rs", "str_ext.rs", "hashmap_ext.rs"],
